@@ -59,12 +59,21 @@ theorem tsAt_congr {s s' : St} (h : s'.ts = s.ts) (j : Nat) : tsAt s' j = tsAt s
 theorem create_idle {s : St} (hf : FInv s) (hd : s.dpc = .create) : pc s (skip s.ts s.i) = .idle :=
   hf.front1 _ (by simp only [frontier, hd]; simpa using skip_ge s.ts s.i)
 
+/-- the dispatcher's operations on the watchdog change nothing but the watchdog's bookkeeping -/
+theorem d_wd_frame {s s' : St} {a : DAct} (ha : a = .createG ∨ a = .cancelG ∨ a = .joinG)
+    (hd : dStep s a = some s') : s' = { s with gpc := s'.gpc, gcan := s'.gcan, gjoin := s'.gjoin } := by
+  rcases ha with ha | ha | ha <;> subst ha <;> simp only [dStep] at hd <;> split at hd <;> (try split at hd) <;>
+    simp at hd <;> subst hd <;> rfl
+
 theorem minv_d {s s' : St} {a : DAct} (h : MInv s) (hf : FInv s) (hs : dStep s a = some s') : MInv s' := by
   have ⟨h1, h2, h3, h4, h5, h6, h7, h8, h9⟩ := h
   cases a with
+  | createG => rw [d_wd_frame (Or.inl rfl) hs]; exact ⟨h1, h2, h3, h4, h5, h6, h7, h8, h9⟩
+  | cancelG => rw [d_wd_frame (Or.inr (Or.inl rfl)) hs]; exact ⟨h1, h2, h3, h4, h5, h6, h7, h8, h9⟩
+  | joinG => rw [d_wd_frame (Or.inr (Or.inr rfl)) hs]; exact ⟨h1, h2, h3, h4, h5, h6, h7, h8, h9⟩
   | createS =>
     simp only [dStep] at hs
-    split at hs <;> simp at hs; subst hs
+    split at hs <;> (try split at hs) <;> simp at hs; subst hs
     constructor <;> simp_all [pc, SPC.holdsT]
   | lock =>
     simp only [dStep] at hs
@@ -196,6 +205,9 @@ theorem tinv_d {s s' : St} {a : DAct} (h : TInv s) (hf : FInv s) (hs : dStep s a
     rw [getD_set' hlt]; split
     · subst_vars; have := hok (skip s.ts s.i); rw [hidle] at this; simpa [okTS] using this
     · exact hok k
+  | createG => rw [d_wd_frame (Or.inl rfl) hs]; exact ⟨hl, hok⟩
+  | cancelG => rw [d_wd_frame (Or.inr (Or.inl rfl)) hs]; exact ⟨hl, hok⟩
+  | joinG => rw [d_wd_frame (Or.inr (Or.inr rfl)) hs]; exact ⟨hl, hok⟩
   | createS | lock | wait | wake _ | relock | unlock | cancelS | ret =>
     simp only [dStep] at hs
     (repeat' split at hs) <;> simp [roomTest, drainTest] at hs <;> (try split at hs) <;>
